@@ -377,6 +377,144 @@ def compound_case(ctx, case):
             return
 
 
+def paired_case(ctx, case):
+    """case = (ops, pattern, parenthesised first?): the default grouping and a parenthesised grouping of the SAME
+    operand / operator sequence are evaluated side by side in one basic block; each keeps its own value"""
+    ops, pattern, par_first = case
+    n = len(ops) + 1
+    names = NAMES[:n]
+    flat = []
+    for k in range(n):
+        flat.append(names[k])
+        if k < n - 1:
+            flat.append(ops[k])
+    ptoks = chain_tokens([[x] for x in names], list(ops), pattern)
+    t_default = exprparse.parse_tokens(flat)
+    t_paren = exprparse.parse_tokens(ptoks)
+    ctx.count()
+    if t_default == t_paren:
+        ctx.discard("parentheses-do-not-change-the-grouping")
+        return
+    inputs, _ = separating_inputs(t_default, [t_paren], names)
+    usable = []
+    for env, ev in inputs:
+        try:
+            usable.append((env, ev, eval_tree(t_paren, env)))
+        except OutOfDomain:
+            continue
+    if not usable:
+        ctx.discard("no-input-on-which-both-groupings-are-defined-and-differ")
+        return
+    first, second = (ptoks, flat) if par_first else (flat, ptoks)
+    toks = ["int", "g0", ";", "int", "g1", ";"] + HEAD + ["g0", "="] + first + [";", "g1", "="] + second + [";", "return", "0", ";", "}"]
+    src = layouts(toks, 0)
+    c = adapter.compile_src(src)
+    if not c.ok:
+        ctx.fail("value|rejected|" + c.why()[:80], "well-formed program rejected: %r: %s" % (src, c.why()), case)
+        return
+    program = adapter.link([c.ir])
+    ctx.nontrivial(src)
+    ctx.label("value-ctx:paired-groupings")
+    for env, dv, pv in usable:
+        want = (pv, dv) if par_first else (dv, pv)
+        args = {k: env.get(k, 0) for k in ("a", "b", "c", "d")}
+        vm = adapter.new_vm(program)
+        vm.SetGlobal("g0", 0)
+        vm.SetGlobal("g1", 0)
+        ran = adapter.invoke(vm, "f", args, budget=100000)
+        if not ran.ok:
+            ctx.fail("value|vm-exception|" + (adapter.exc_sig(ran.exc) if ran.exc else "diverged"), "%r with %r: VM failed %r" % (src, args, ran.exc), case)
+            return
+        got = (vm.GetGlobal("g0"), vm.GetGlobal("g1"))
+        if got != want:
+            ctx.fail("value|wrong-value|ctx=paired", "%r with %r: g0, g1 = %r, the two groupings give %r" % (src, args, got, want), case)
+            return
+
+
+def vector_chain_items():
+    """terms `vec (* | /) scalar ...` joined by + / -; one or two terms"""
+    items = []
+    for k1 in (1, 2, 3):
+        for ops1 in itertools.product("*/", repeat=k1):
+            items.append((tuple(ops1), None, ()))
+    for k1 in (0, 1, 2):
+        for ops1 in itertools.product("*/", repeat=k1):
+            for join in "+-":
+                for k2 in (0, 1, 2):
+                    for ops2 in itertools.product("*/", repeat=k2):
+                        if k1 + k2 >= 1 and k1 + k2 <= 3:
+                            items.append((tuple(ops1), join, tuple(ops2)))
+    return items
+
+
+def vector_chain_case(ctx, case):
+    """`v * b / c`, `v - w * b / c` ... on int3 operands: component k of the result is the scalar chain evaluated
+    with the declared grouping on component k of the vector operands"""
+    ops1, join, ops2 = case
+    scal = ["b", "c", "d", "e"]
+    flat, used = ["v"], []
+    for o in ops1:
+        nm = scal[len(used)]
+        used.append(nm)
+        flat += [o, nm]
+    if join is not None:
+        flat += [join, "w"]
+        for o in ops2:
+            nm = scal[len(used)]
+            used.append(nm)
+            flat += [o, nm]
+    expected = exprparse.parse_tokens(flat)
+    leaves = [t for t in flat if t.isalpha()]
+    others = [t for t in all_trees(leaves, [t for t in flat if not t.isalpha()]) if t != expected]
+    ctx.count()
+    vecs = {"v": [7, -8, 9], "w": [5, 11, -3]}
+    envs = []
+    for vals in itertools.product([2, 3, 5, -2], repeat=len(used)):
+        envs.append(dict(zip(used, vals)))
+    src = "export function f ( int3 v , int3 w , int b , int c , int d , int e ) -> int3 { return %s ; }\n" % " ".join(flat)
+    c = adapter.compile_src(src)
+    if not c.ok:
+        ctx.fail("value|rejected|" + c.why()[:80], "well-formed vector chain rejected: %r: %s" % (src, c.why()), case)
+        return
+    program = adapter.link([c.ir])
+    ctx.label("value-ctx:vector-chain")
+    tested = 0
+    for env in envs:
+        want = []
+        separates = False
+        try:
+            for k in range(3):
+                e2 = dict(env, v=vecs["v"][k], w=vecs["w"][k])
+                want.append(eval_tree(expected, e2))
+                for o in others:
+                    try:
+                        if eval_tree(o, e2) != want[-1]:
+                            separates = True
+                    except OutOfDomain:
+                        pass
+        except OutOfDomain:
+            continue
+        if not separates:
+            continue
+        tested += 1
+        args = {"v": list(vecs["v"]), "w": list(vecs["w"]), "b": 1, "c": 1, "d": 1, "e": 1}
+        args.update(env)
+        ran = adapter.invoke(adapter.new_vm(program), "f", args, budget=100000)
+        if not ran.ok:
+            ctx.fail("value|vm-exception|" + (adapter.exc_sig(ran.exc) if ran.exc else "diverged"), "%r with %r: VM failed %r" % (src, args, ran.exc), case)
+            return
+        if list(ran.value) != want:
+            ctx.fail("value|wrong-value|ctx=vector-chain", "%r with %r: VM returned %r, the declared grouping %s gives %r" % (
+                src, args, ran.value, exprparse.show(expected), want), case)
+            return
+        if tested >= 6:
+            break
+    if tested:
+        ctx.nontrivial(src)
+    else:
+        ctx.discard("no-separating-input (all groupings agree)")
+
+
 # -- generated long chains ------------------------------------------------------------
 
 _OPERAND = st.sampled_from([
@@ -389,7 +527,12 @@ _OPERAND = st.sampled_from([
 @st.composite
 def long_chain(draw):
     n = draw(st.integers(5, 8))
-    ops = [draw(st.sampled_from(OPS)) for _ in range(n - 1)]
+    level = None
+    if draw(st.integers(0, 7)) == 0:
+        # a very long run, mostly of operators of ONE precedence level (left-to-right grouping over dozens of operands)
+        n = draw(st.integers(30, 70))
+        level = draw(st.sampled_from([["-", "+"], ["-"], ["/", "*", "%"], ["/"], ["<", ">="], ["=="], ["&&"], OPS]))
+    ops = [draw(st.sampled_from(level or OPS)) for _ in range(n - 1)]
     operands = [draw(_OPERAND) for _ in range(n)]
     # random properly nested parentheses: pick ranges one after another
     pattern = []
@@ -414,7 +557,7 @@ def long_chain(draw):
 def long_case(ctx, case):
     ops, operands, pattern, cname, lay = case
     etoks = chain_tokens([list(o) for o in operands], list(ops), pattern)
-    ctx.label("chain-len:%d" % len(ops))
+    ctx.label("chain-len:%d" % len(ops) if len(ops) < 20 else "chain-len:>=30-operands")
     check_shape(ctx, etoks, cname, lay, case)
 
 
@@ -464,6 +607,13 @@ def run(R):
     R.enum("compound-value", lambda: [(cop, ops, par) for cop in "+-*/" for n in (1, 2)
                                       for ops in itertools.product(OPS, repeat=n) for par in (False, True)], compound_case)
     R.require("value-ctx:compound")
+    R.enum("paired-groupings", lambda: [(ops, pat, pf) for n in (2, 3) for ops in itertools.product(OPS, repeat=n)
+                                        for pat in paren_patterns(n + 1)[1:] for pf in (False, True)][::(5 if R.quick else 1)], paired_case,
+           exhaustive=not R.quick)
+    R.enum("vector-chain-value", vector_chain_items, vector_chain_case)
+    R.require("value-ctx:paired-groupings")
+    R.require("value-ctx:vector-chain")
+    R.require("chain-len:>=30-operands")
     R.hyp("long-chains", long_chain(), long_case, examples=R.pick(250, 4000))
     for c in CONTEXTS:
         R.require("ctx:" + c)
